@@ -39,6 +39,15 @@ Proof. induction n as [|n IH]; intros [|y l]; cbn; try tauto. intros [->|H]; aut
 Lemma filter_len {A} (f : A -> bool) (l : list A) : (length (filter f l) <= length l)%nat.
 Proof. induction l as [|a l IH]; cbn; auto. destruct (f a); cbn; lia. Qed.
 
+Lemma nodup_app {A} (a b : list A) :
+  NoDup a -> NoDup b -> (forall x, In x a -> In x b -> False) -> NoDup (a ++ b).
+Proof.
+  induction a as [|x a IH]; cbn; intros Ha Hb Hd; auto.
+  inversion Ha as [|? ? Hx Ha']; subst. constructor.
+  - rewrite in_app_iff. intros [H|H]; [contradiction|]. eapply Hd; eauto.
+  - apply IH; auto. intros y Hy1 Hy2. eapply Hd; eauto.
+Qed.
+
 (* ---- induction over dependency expressions (nested through lists) *)
 Section DepInd.
 Variable P : dep -> Prop.
